@@ -65,6 +65,11 @@ CHECKS = {
          "Held on the executions observed: trees with hidden directories, every built-in excluded name at any depth and as a file name, look-alikes, compiled artefacts, empty directories; pattern sets in .thailintignore / yaml ignore / both; targets '.', sub-directories, explicit (also excluded/ignored) files and mixtures; recursive and --no-recursive; evidence counts file verdicts per target kind and pattern source.",
          "Trusted: the reference walker/matcher (forms dir/, *.ext, exact path, dir/**, **/*_gen.py without root-level candidates); no symlinks; no nested .git directories (they start a nested project root).",
          "DESIGN.md section 4 C14"),
+
+ "C03": ("runtime monitoring: boundary trace of `thailint dry` on generated projects with planted duplicate runs of known length, multiplicity and places; offline checker with an independent normaliser for soundness (named text identical), mutuality, completeness (intersection), occurrence counts and silence on duplicate-free projects",
+         "Held on the executions observed: py/ts/js projects, runs of length W-1..W+4 and multiplicity 2-5 across files and twice in one file, different indentation, interleaved blank/comment/trailing-comment lines, suppressed occurrences, min_duplicate_lines 2-6, min_occurrences 2-4, both storage modes, '.', explicit file lists and mixed file+directory arguments; evidence counts occurrences, violations and counts checked.",
+         "Trusted: uniqueness of filler statements by construction; the harness normaliser (no comment markers inside strings in the strict workload; that case is a separate probe); 'covered' = intersected.",
+         "DESIGN.md section 4 C03"),
 }
 PENDING = {}
 props = [json.loads(l) for l in open(os.path.join(HERE, "properties.jsonl"))]
